@@ -3,6 +3,10 @@
 #define OP_WRITE tulz_rwp_Resource_OpType_Write
 /* prototypes of the models that the lowered Resource code calls (definitions: specs/res_models.h) */
 struct closure_Res__lock_1;
+enum { ACC_R, ACC_W };
+_Bool g_mheld;      /* ghost: the executing thread holds m_mutex */
+/* C15 ownership discipline: every field of Resource is guarded by m_mutex */
+static int verif_access(int field, int kind, void *obj) { __CPROVER_assert(g_mheld, "C15 the state of a Resource is read and written only with its mutex held"); return 0; }
 static _Bool Deq__empty(struct Deq *q);
 static void Deq__push_back(struct Deq *q, struct ResOp *x);
 static struct ResOp *Deq__back(struct Deq *q);
